@@ -470,83 +470,112 @@ Definition run_scenario (op : sc_op) (va vb : value) (who : bool) (p : path) (u 
       (read st4 b, read st4 a)
   end.
 
-(* ------------------------------------------------------------------ operation sequences on a pool of instances *)
-(* The correspondence interleaves operations on up to a few instances of ONE type and, after (almost) every step,
-   observes every instance: its field values, to_bits, pairwise ==, pairwise equality of hash().  The model runs
-   the same sequence on the cell store; the property's invariants are evaluated against the model's values. *)
+(* ------------------------------------------------------------------ operation sequences on a pool of live objects *)
+(* The correspondence interleaves operations on a few LIVE objects — instances of the struct type under test, Bits objects of the
+   same width, instances of other struct types of the same width — and, after (almost) every step, observes every object: its field
+   values, to_bits, and for objects of one type pairwise == and equality of hash().  Any (sub-)object of any live object can be the
+   right-hand side of @= / <<=, and can itself be written before the target is flipped or observed.  The model runs the same sequence
+   on the cell store with VALUE semantics: an assignment transfers the value the source has at that moment (<<= : into the NEXT
+   values), and never links target and source. *)
+Fixpoint shape_eqb (a b : shape) {struct a} : bool :=
+  match a, b with
+  | SBits n, SBits m => n =? m
+  | SStruct fs, SStruct gs => forall2b shape_eqb fs gs
+  | SList k e, SList k' e' => Nat.eqb k k' && shape_eqb e e'
+  | _, _ => false
+  end.
 Fixpoint sub_obj (o : obj) (p : path) {struct p} : option obj :=
   match p with
   | [] => Some o
   | Fld i :: q => match o with OStruct _ cs => match nth_error cs i with Some c => sub_obj c q | None => None end | _ => None end
   | Idx i :: q => match o with OList _ cs => match nth_error cs i with Some c => sub_obj c q | None => None end | _ => None end
   end.
+Definition sub_shape (T : shape) (p : path) : shape := match shape_at T p with Some sh => sh | None => SBits 0 end.
 Fixpoint vflat (v : value) : list Z :=
   match v with
   | VBits u => [u]
   | VStruct vs => concat (map vflat vs)
   | VList vs => concat (map vflat vs)
   end.
-(* in-place write of a value to the sub-object at path p (a Bits leaf, a nested struct, a list element) *)
-Definition write_sub (o : obj) (p : path) (v : value) (st : store) : store :=
-  match sub_obj o p with
-  | Some so => fold_left (fun s lu => set_cur s (fst lu) (snd lu)) (combine (leaves so) (vflat v)) st
-  | None => st
-  end.
+(* leaf-wise write of literal values into the current (nb = false) or the next (nb = true) values *)
+Definition write_leaves (nb : bool) (ls : list nat) (us : list Z) (st : store) : store :=
+  fold_left (fun s lu => if nb then set_nxt s (fst lu) (snd lu) else set_cur s (fst lu) (snd lu)) (combine ls us) st.
 
+Record slot : Type := mkslot { s_tag : nat; s_shape : shape; s_obj : obj }.
 Inductive seq_op : Type :=
-| QNew     (v : value)                       (* a new instance holding v: T(...), T(), from_bits, from_bits(x.to_bits()) *)
-| QClone   (i : nat)                         (* clone / deepcopy of instance i, appended *)
-| QWrite   (i : nat) (p : path) (v : value)  (* x.f @= v, x.l[k] @= v, x.sub @= v, x.sub <<= v; x.sub._flip() *)
-| QImatmul (i j : nat)                       (* x_i @= x_j   (also x_i @= x_j.to_bits()) *)
-| QIlshift (i j : nat)                       (* x_i <<= x_j *)
-| QFlip    (i : nat)                         (* x_i._flip() *)
-| QNop.                                      (* observation only *)
+| QNew    (tag : nat) (T : shape) (v : value)            (* a new live object of shape T holding v (any constructor; a BitsN is SBits N) *)
+| QClone  (i : nat)                                       (* clone / deepcopy of object i, appended *)
+| QWrite  (nb : bool) (i : nat) (p : path) (v : value)    (* x_i.p @= <fresh value v>   /  x_i.p <<= <fresh value v> *)
+| QAssign (nb : bool) (i : nat) (p : path) (j : nat) (q : path)   (* x_i.p @= x_j.q  /  x_i.p <<= x_j.q : any two nodes of equal width *)
+| QFlip   (i : nat) (p : path)                            (* x_i.p._flip() *)
+| QNop.                                                   (* observation only *)
 
-Definition sstate := (list obj * store)%type.
-Definition nth_obj (os : list obj) (i : nat) : obj := nth i os (OLeaf 0).
+Definition sstate := (list slot * store)%type.
+Definition nth_slot (sl : list slot) (i : nat) : slot := nth i sl (mkslot 0 (SBits 0) (OLeaf 0)).
 Definition seq_step (s : sstate) (op : seq_op) : sstate :=
-  let '(os, st) := s in
+  let '(sl, st) := s in
   match op with
-  | QNew v => let '(o, st') := alloc v st in (os ++ [o], st')
-  | QClone i => let '(o, st') := clone (nth_obj os i) st in (os ++ [o], st')
-  | QWrite i p v => (os, write_sub (nth_obj os i) p v st)
-  | QImatmul i j => (os, imatmul (nth_obj os i) (nth_obj os j) st)
-  | QIlshift i j => (os, ilshift (nth_obj os i) (nth_obj os j) st)
-  | QFlip i => (os, flip (nth_obj os i) st)
+  | QNew tag T v => let '(o, st') := alloc v st in (sl ++ [mkslot tag T o], st')
+  | QClone i => let x := nth_slot sl i in let '(o, st') := clone (s_obj x) st in (sl ++ [mkslot (s_tag x) (s_shape x) o], st')
+  | QWrite nb i p v =>
+      match sub_obj (s_obj (nth_slot sl i)) p with
+      | Some t => (sl, write_leaves nb (leaves t) (vflat v) st)
+      | None => s
+      end
+  | QAssign nb i p j q =>
+      let xi := nth_slot sl i in let xj := nth_slot sl j in
+      match sub_obj (s_obj xi) p, sub_obj (s_obj xj) q with
+      | Some t, Some so =>
+          let St := sub_shape (s_shape xi) p in let Ss := sub_shape (s_shape xj) q in
+          if shape_eqb St Ss then (sl, if nb then ilshift t so st else imatmul t so st)        (* same type: field by field *)
+          else (sl, write_leaves nb (leaves t) (vflat (unpack St (pack Ss (read st so)))) st)   (* other type: through the packed value *)
+      | _, _ => s
+      end
+  | QFlip i p =>
+      match sub_obj (s_obj (nth_slot sl i)) p with
+      | Some t => (sl, flip t st)
+      | None => s
+      end
   | QNop => s
   end.
-Definition seq_values (s : sstate) : list value := map (read (snd s)) (fst s).
+Definition seq_values (s : sstate) : list (nat * shape * value) :=
+  map (fun x => (s_tag x, s_shape x, read (snd s) (s_obj x))) (fst s).
 
-(* what was observed after a step: per instance (field values, to_bits), then for all pairs i<j: x_i == x_j, hash(x_i) == hash(x_j) *)
+(* observed after a step: per object (field values, to_bits); then for all pairs i<j of objects with the SAME tag: x_i == x_j, hash(x_i) == hash(x_j) *)
 Definition step_obs := option (list (value * Z) * list bool * list bool).
 Fixpoint all_pairs {A} (l : list A) : list (A * A) :=
   match l with
   | [] => []
   | x :: r => map (pair x) r ++ all_pairs r
   end.
-Fixpoint check_pairs (ps : list (value * value)) (eqs hs : list bool) : bool :=
-  match ps, eqs, hs with
-  | [], [], [] => true
-  | ab :: ps', e :: eqs', h :: hs' =>
-      Bool.eqb e (veqb (fst ab) (snd ab)) && implb (veqb (fst ab) (snd ab)) h && check_pairs ps' eqs' hs'
-  | _, _, _ => false
+Fixpoint check_pairs (ps : list ((nat * shape * value) * (nat * shape * value))) (eqs hs : list bool) : bool :=
+  match ps with
+  | [] => match eqs, hs with [], [] => true | _, _ => false end
+  | ab :: ps' =>
+      let a := fst ab in let b := snd ab in
+      if Nat.eqb (fst (fst a)) (fst (fst b)) then
+        match eqs, hs with
+        | e :: eqs', h :: hs' => Bool.eqb e (veqb (snd a) (snd b)) && implb (veqb (snd a) (snd b)) h && check_pairs ps' eqs' hs'
+        | _, _ => false
+        end
+      else check_pairs ps' eqs hs
   end.
-Definition check_obs (T : shape) (ms : list value) (o : step_obs) : bool :=
+Definition check_obs (ms : list (nat * shape * value)) (o : step_obs) : bool :=
   match o with
   | None => true
   | Some (vs, eqs, hs) =>
-      forall2b (fun m vz => typed T m && veqb m (fst vz) && (pack T m =? snd vz)) ms vs
+      forall2b (fun m vz => typed (snd (fst m)) (snd m) && veqb (snd m) (fst vz) && (pack (snd (fst m)) (snd m) =? snd vz)) ms vs
       && check_pairs (all_pairs ms) eqs hs
   end.
 (* index of the first step whose observation contradicts the model / the invariants *)
-Fixpoint seq_run (T : shape) (s : sstate) (ops : list seq_op) (obs : list step_obs) (k : nat) : option nat :=
+Fixpoint seq_run (s : sstate) (ops : list seq_op) (obs : list step_obs) (k : nat) : option nat :=
   match ops, obs with
   | op :: ops', o :: obs' =>
       let s' := seq_step s op in
-      if check_obs T (seq_values s') o then seq_run T s' ops' obs' (S k) else Some k
+      if check_obs (seq_values s') o then seq_run s' ops' obs' (S k) else Some k
   | [], [] => None
   | _, _ => Some k
   end.
-Definition seq_ok (T : shape) (ops : list seq_op) (obs : list step_obs) : bool :=
-  match seq_run T ([], empty_store) ops obs 0 with None => true | Some _ => false end.
-Definition seq_model (ops : list seq_op) : list value := seq_values (fold_left seq_step ops ([], empty_store)).
+Definition seq_ok (ops : list seq_op) (obs : list step_obs) : bool :=
+  match seq_run ([], empty_store) ops obs 0 with None => true | Some _ => false end.
+Definition seq_model (ops : list seq_op) : list value := map snd (seq_values (fold_left seq_step ops ([], empty_store))).
